@@ -344,6 +344,105 @@ def oracle_late(stream):
                        "arguments vs the same call with epsrel=1e-10, subdiv_limit=4000"})
 
 
+# --- scale covariance and the memo tie ------------------------------------------------------
+# A change of the time unit by s (cutoff/s, T/s, times*s) leaves every cell unchanged and
+# multiplies C by 1/s^2.  Measured on the unchanged tree: hard cutoff invariant to 3e-14 for
+# s = 1e-6, 1e-9, 1e-12; exponential/gaussian to 1e-11 for cutoffs in [4e-3, 4e3] (beyond that
+# the unchanged code silently loses the (cutoff, inf) tail, see not_shown).
+SCALE_POINTS = [
+    # alpha, zeta, wc, cutoff type, T/wc, dt*wc, [time units]
+    (0.3, 1.0, 4.0, "hard", 0.0, 0.3712345678912, [1e-6, 1e-9]),
+    (0.7, 0.5, 4.0, "hard", 0.8, 0.1498765432198, [1e-6, 1e-9]),
+    (0.3, 1.0, 4.0, "exponential", 0.0, 0.3712345678912, [1e-3, 1e3]),
+    (0.5, 2.0, 4.0, "gaussian", 0.5, 0.2123456789123, [1e-3]),
+]
+SCALE_CELLS = [("upper-triangle", 0.0, None), ("square", 1.0, None), ("square", 3.0, None),
+               ("rectangle", 2.0, 4.5), ("upper-triangle", 2.0, None)]
+
+
+def oracle_scale(stream):
+    from oqupy.bath_correlations import PowerLawSD
+    for (alpha, zeta, wc, ct, t_over, dtw, units) in SCALE_POINTS:
+        vals = {}
+        for s_ in [1.0] + list(units):
+            with stream("scale"):
+                obj = PowerLawSD(alpha, zeta, wc / s_, ct, t_over * wc / s_)
+                dt = dtw / wc * s_
+                cells = [complex(obj.correlation_2d_integral(dt, k * dt, None if k2 is None else k2 * dt, sh))
+                         for (sh, k, k2) in SCALE_CELLS]
+                terms = [eta_terms(obj, sh, dt, k * dt, None if k2 is None else k2 * dt)
+                         for (sh, k, k2) in SCALE_CELLS]
+                corr = complex(obj.correlation(1.3 * dt)) * s_ * s_
+            vals[s_] = (cells, terms, corr)
+        base = vals[1.0]
+        for s_ in units:
+            cells, terms, corr = vals[s_]
+            key = "scale covariance (time unit %g): %s cutoff" % (s_, ct)
+            worst = None
+            for (sh, k, k2), v, b, tm in zip(SCALE_CELLS, cells, base[0], base[1]):
+                if abs(v - b) > 1e-9 * tm + 1e-9 * abs(b):
+                    worst = {"shape": sh, "time_1/dt": k, "time_2/dt": k2,
+                             "unit 1": [b.real, b.imag], "unit %g" % s_: [v.real, v.imag]}
+                    break
+            if worst is None and abs(corr - base[2]) > 1e-9 * abs(base[2]):
+                worst = {"quantity": "correlation(1.3 dt) * unit^2", "unit 1": [base[2].real, base[2].imag],
+                         "unit %g" % s_: [corr.real, corr.imag]}
+            if worst is not None:
+                worst.update({"class": "PowerLawSD", "alpha": alpha, "zeta": zeta, "cutoff(unit 1)": wc,
+                              "cutoff_type": ct, "temperature(unit 1)": t_over * wc, "dt(unit 1)": dtw / wc,
+                              "time unit": s_,
+                              "how": "PowerLawSD(alpha, zeta, cutoff/s, type, T/s) with delta*s, time_1*s, "
+                                     "time_2*s must return the same cell value as s = 1 (tolerance 1e-9 "
+                                     "of the eta terms; the unchanged code meets 3e-14)"})
+            yield key, worst
+
+
+def oracle_memo(obj, taus, matsubara=False):
+    """the memoised, positionally called eta_function(tau) must be the un-memoised function at
+    the SAME tau, bit for bit (also called with a keyword)"""
+    kw = {"matsubara": True} if matsubara else {}
+    raw = getattr(type(obj).eta_function, "__wrapped__", None)
+    for tau in taus:
+        v_pos = obj.eta_function(tau, **kw)
+        v_key = obj.eta_function(tau=tau, **kw)
+        v_raw = raw(obj, tau, **kw) if raw is not None else v_key
+        if not (v_pos == v_raw and v_pos == v_key):
+            return {"class": type(obj).__name__, "tau": tau, "matsubara": matsubara,
+                    "eta_function(tau)": repr(v_pos), "eta_function(tau=tau)": repr(v_key),
+                    "un-memoised eta_function(tau)": repr(v_raw),
+                    "how": "obj.eta_function(tau) vs type(obj).eta_function.__wrapped__(obj, tau) and "
+                           "obj.eta_function(tau=tau): must be identical floats"}
+    return None
+
+
+KEY_MEMO = "memoised eta_function(tau) differs from the un-memoised evaluation at the same tau"
+
+
+def oracle_matsubara_triangle(obj, point, dt, t1):
+    """imaginary time, offset upper-triangle: the value returned is minus the integral of the
+    Matsubara correlation function over the documented region (eta'' = -C there)"""
+    v = complex(obj.correlation_2d_integral(dt, t1, None, "upper-triangle", matsubara=True))
+    d, ok = direct_cell_converged(lambda t: obj.correlation(t, matsubara=True), "upper-triangle",
+                                  dt, t1, None, check=False)
+    d = -d
+    terms = abs(obj.eta_function(t1 + dt, matsubara=True)) + abs(obj.eta_function(t1, matsubara=True))
+    tol = cell_tolerance(d, terms, 2)
+    if abs(v - d) <= tol:
+        return None
+    return {"class": "PowerLawSD", "alpha": point[0], "zeta": point[1], "cutoff": point[2],
+            "cutoff_type": point[3], "temperature": point[4] * point[2], "matsubara": True,
+            "shape": "upper-triangle", "delta": dt, "time_1": t1,
+            "correlation_2d_integral": [v.real, v.imag],
+            "minus_direct_integration_of_matsubara_correlation": [d.real, d.imag],
+            "difference": abs(v - d), "allowed": tol,
+            "how": "obj.correlation_2d_integral(delta, time_1, shape='upper-triangle', matsubara=True) "
+                   "vs -(integral of obj.correlation(t'-t'', matsubara=True) over t' in "
+                   "[time_1, time_1+delta], t'' in [0, t'-time_1])"}
+
+
+KEY_MATS_TRI = "imaginary time, upper-triangle at time_1 != 0 vs integration of the Matsubara correlation()"
+
+
 class WarningLog:
     """counts scipy IntegrationWarnings raised inside oqupy/bath_correlations.py, per phase"""
 
@@ -487,11 +586,15 @@ def modes_key(label, shape):
 def logged_shape_call(obj, bc, shape, delta, t1, t2, matsubara):
     """call the real correlation_2d_integral, logging the eta_function values it used and the
     top-level _complex_integral(correlation) it made (repaired upper-triangle)"""
-    log, cis = [], []
+    log, cis, seen_tau, depth = [], [], [], [0]
     cls_eta = type(obj).eta_function
 
     def eta_logged(tau, *a, **k):
-        v = cls_eta(obj, tau, *a, **k)
+        depth[0] += 1
+        try:
+            v = cls_eta(obj, tau, *a, **k)
+        finally:
+            depth[0] -= 1
         log.append((float(tau), complex(v)))
         return v
     orig_ci = bc._complex_integral
@@ -500,6 +603,11 @@ def logged_shape_call(obj, bc, shape, delta, t1, t2, matsubara):
         v = orig_ci(integrand, a=a, b=b, epsrel=epsrel, limit=limit)
         if getattr(integrand, "__name__", "") == "<lambda>":
             cis.append((float(a), float(b), complex(v)))
+        elif depth[0] == 1:
+            # closure built by eta_function itself: which tau does it integrate for?
+            fv = getattr(integrand, "__code__", None)
+            if fv is not None and "tau" in fv.co_freevars and integrand.__closure__:
+                seen_tau.append(integrand.__closure__[fv.co_freevars.index("tau")].cell_contents)
         return v
     obj.eta_function = eta_logged
     bc._complex_integral = ci_logged
@@ -509,7 +617,12 @@ def logged_shape_call(obj, bc, shape, delta, t1, t2, matsubara):
     finally:
         del obj.eta_function
         bc._complex_integral = orig_ci
-    return v, log, cis
+    # every tau an eta_function closure integrated for must be a requested tau, exactly
+    want = set()
+    for t, _ in log:
+        want.add(complex(t) if not matsubara else -1j * t)
+    stray = [repr(t) for t in seen_tau if complex(t) not in want]
+    return v, log, cis, stray
 
 
 def capture_closures(obj, bc, tau, matsubara):
@@ -568,6 +681,23 @@ def correspondence(res, tier, rng):
         if bad is not None:
             res.disagree(key, bad)
     mark("(f) late times, default arguments")
+    # ---- (g) scale covariance, memo tie -----------------------------------------------------
+    for key, bad in oracle_scale(wlog):
+        res.case(key, True)
+        res.count("scale:" + key.split(":")[1].strip())
+        if bad is not None:
+            res.disagree(key, bad)
+    from oqupy.bath_correlations import PowerLawSD as _P
+    for (alpha, zeta, wc, ct, t_over, dtw, units) in SCALE_POINTS[:2]:
+        for s_ in [1.0] + list(units):
+            o = _P(alpha, zeta, wc / s_, ct, t_over * wc / s_)
+            dt_ = dtw / wc * s_
+            bad = oracle_memo(o, [dt_, 3 * dt_, dt_ / 3.0])
+            res.case("memo %s unit %g" % (ct, s_), True)
+            res.count("memo-tie")
+            if bad is not None:
+                res.disagree(KEY_MEMO, bad)
+    mark("(g) scale covariance, memo tie")
     phase("(a) shape calls")
 
     points = list(QUICK_POINTS)
@@ -592,7 +722,11 @@ def correspondence(res, tier, rng):
                     top = max(t1 + dt, t2 or 0.0)
                     if top > beta:
                         continue
-                v, log, cis = logged_shape_call(obj, bc, shape, dt, t1, t2, mats)
+                v, log, cis, stray = logged_shape_call(obj, bc, shape, dt, t1, t2, mats)
+                if stray:
+                    res.disagree(KEY_MEMO + " (the integrand closure was built for another tau)",
+                                 {"point": pstr(pt), "shape": shape, "requested": [t for t, _ in log],
+                                  "closure_tau": stray})
                 tab = ";".join("%s:%s,%s" % (rat(t), rat(x.real), rat(x.imag)) for t, x in log)
                 ci = "none"
                 if cis:
@@ -714,6 +848,14 @@ def correspondence(res, tier, rng):
         if zero_bad is not None:
             res.disagree("2D integral differs from direct integration of correlation(): " + KEY_ETA0,
                          zero_bad)
+        T_ = pt[4] * pt[2]
+        if T_ > 0:
+            dm = min(dt, 0.2 / T_)
+            badm = oracle_matsubara_triangle(obj, pt, dm, 1.7 * dm)
+            res.case("matsubara-triangle %s" % pstr(pt), True)
+            res.count("direct:upper-triangle:matsubara")
+            if badm is not None:
+                res.disagree("2D integral differs from direct integration: " + KEY_MATS_TRI, badm)
         for j, (shape, t1, t2) in enumerate(cells):
             if zero_bad is not None and touches_origin(shape, dt, t1, t2):
                 continue
@@ -844,6 +986,20 @@ def search(res, rng=None, budget_points=None):
         if bad is not None and key not in seen:
             seen.add(key)
             res.fail(key, bad)
+    # scale covariance, memo tie
+    for key, bad in oracle_scale(WarningLog()):
+        if bad is not None and key not in seen:
+            seen.add(key)
+            res.fail(key, bad)
+    from oqupy.bath_correlations import PowerLawSD as _P
+    for (alpha, zeta, wc, ct, t_over, dtw, units) in SCALE_POINTS[:2]:
+        for s_ in [1.0] + list(units):
+            o = _P(alpha, zeta, wc / s_, ct, t_over * wc / s_)
+            dt_ = dtw / wc * s_
+            bad = oracle_memo(o, [dt_, 3 * dt_, dt_ / 3.0])
+            if bad is not None and KEY_MEMO not in seen:
+                seen.add(KEY_MEMO)
+                res.fail(KEY_MEMO, bad)
     # CustomCorrelations: finite-mode baths, commensurate and incommensurate frequencies
     for (label, d, modes, temp) in mode_cases(res.tier, rng):
         for (shape, t1, t2) in mode_cells(d, rng, 7):
@@ -873,6 +1029,12 @@ def search(res, rng=None, budget_points=None):
             if bad not in (None, "unconverged"):
                 seen.add(key)
                 res.fail(key, bad)
+        if T > 0 and KEY_MATS_TRI not in seen:
+            dm = min(dt, 0.2 / T)
+            badm = oracle_matsubara_triangle(obj, pt, dm, 1.7 * dm)
+            if badm is not None:
+                seen.add(KEY_MATS_TRI)
+                res.fail(KEY_MATS_TRI, badm)
         # (c) tiling
         n = rng.choice([2, 3, 4])
         tot, whole, terms = oracle_tiling(obj, dt, n)
@@ -962,7 +1124,11 @@ def run(tier, seed, replay):
         "up to 1500 hard, 60 exponential, 400 gaussian; hard-cutoff cells at time_1 = 250, 300) "
         "with the library's DEFAULT epsrel/subdiv_limit vs the same call with epsrel=1e-10, "
         "subdiv_limit=4000 and the T=0 closed forms (1e-8), oqupy.config values vs the "
-        "regenerated constants; IntegrationWarnings counted per phase.  Distinct = distinct "
+        "regenerated constants; IntegrationWarnings counted per phase; (g) scale covariance (time "
+        "units 1e-6, 1e-9 hard cutoff; 1e-3, 1e3 exponential/gaussian: same cells to 1e-9 of the "
+        "terms), memoised eta_function(tau) == un-memoised / keyword evaluation bit for bit, the "
+        "tau seen by each integrand closure == the requested tau; offset upper-triangles in "
+        "imaginary time vs integration of the Matsubara correlation.  Distinct = distinct "
         "protocol line / oracle call; non-trivial = a shape call that used >= 2 eta values, any "
         "integrand/oracle evaluation.")
     res.assumptions = [
@@ -986,6 +1152,12 @@ def run(tier, seed, replay):
         "already lose all relative accuracy (QUADPACK reports failure) for the exponential cutoff "
         "at cutoff*tau >= 100-200 (20 % at 200, factor 500 at 400; up to 5 % of C(0) in absolute "
         "terms) and for the gaussian cutoff at cutoff*tau >= 800",
+        "cutoff frequencies outside about [4e-3, 4e3] (in the user's units) for the exponential "
+        "and gaussian cutoffs: on the unchanged tree the (cutoff, inf) part of the frequency "
+        "integral is silently lost there (QAGI on the unscaled variable / default epsabs): "
+        "6e-5..2e-3 relative at cutoff 4e4, 40-100 % at cutoff 4e6 and 4e-6, in correlation() and "
+        "every cell alike (self-consistent, so only scale covariance and the closed form see it); "
+        "the hard cutoff is scale invariant to 3e-14 down to time units 1e-12",
         "the Gamma-function closed form of C(tau) at T=0 (exponential cutoff) is used only as a "
         "search oracle, not proved",
         "differentiation under the omega-integral: that the omega-integral of the eta kernel is "
